@@ -38,6 +38,7 @@ RULE = (
     "part|context|scheme|settings index|password|keywords (registry: name|path)"
 )
 
+NUL_PASSWORD = "pw\x00C17"
 PASSWORDS = ("pw-C17", "Pässwörd €17", "")  # the empty password is admissible: its plaintext "hash" is the empty string
 CATCH_ALL = ("plaintext", "ldap_plaintext", "roundup_plaintext", "unix_disabled", "django_disabled")
 DJANGO_PRESETS = ("passlib-default", "django-default", "django-latest", "django-1.0", "django-1.4", "django-1.6")
@@ -649,14 +650,21 @@ def work_scheme(task):
                     pws.append("pä-ßö17".encode(ck["encoding"]))
                 except UnicodeEncodeError:
                     pass
+            # a password with a NUL character: the schemes built on crypt() refuse it, the others take it -- whatever
+            # scheme DOES make a hash for it has that hash recognised and verified through the context like any other
+            pws.append(NUL_PASSWORD)
             for pi, p in enumerate(pws):
-                if not (isinstance(p, bytes) and ck.get("encoding")) and not HS.admissible(name, p, ck):
+                nul = p is NUL_PASSWORD
+                if not nul and not (isinstance(p, bytes) and ck.get("encoding")) and not HS.admissible(name, p, ck):
                     acc.count("inadmissible_password")
                     continue
                 base = {"part": "ctx", "scheme": name, "settings": kw, "ctxkw": ck, "password": p, "via": "handler", "seed": task["seed"]}
                 try:
                     h = make_hash(base)
                 except Exception as e:  # noqa: BLE001
+                    if nul and isinstance(e, ValueError):
+                        acc.count("nul_password_refused_by_scheme")
+                        continue
                     # every settings_grid entry is a documented, admissible setting: a scheme of a shipped context that
                     # cannot produce the hash cannot have it recognised either
                     acc.ev()
